@@ -1322,18 +1322,21 @@ class TexArgs(list):
         """
         arg = self.__coerce(arg)
 
+        # normalize the index the way `list.insert` does
+        if i < 0:
+            i = max(0, len(self) + i)
+        i = min(i, len(self))
+
+        # position in the proxy `.all`: right before the item now at index i
+        j = len(self.all)
+        for k, item in enumerate(self.all):
+            if i < len(self) and item is self[i]:
+                j = k
+                break
+        self.all.insert(j, arg)
+
         if isinstance(arg, (TexGroup, TexCmd)):
             super().insert(i, arg)
-
-        if len(self) <= 1:
-            self.all.append(arg)
-        else:
-            if i > len(self):
-                i = len(self) - 1
-
-            before = self[i - 1]
-            index_before = self.all.index(before)
-            self.all.insert(index_before + 1, arg)
 
     def remove(self, item):
         """Remove either an unparsed argument string or an argument object.
@@ -1367,10 +1370,10 @@ class TexArgs(list):
         self.all.remove(item)
         super().remove(item)
 
-    def pop(self, i):
+    def pop(self, i=-1):
         """Pop argument object at provided index.
 
-        :param int i: Index to pop from the list
+        :param int i: Index to pop from the list (default: last)
 
         >>> arguments = TexArgs([BraceGroup('arg0'), '[arg2]', '{arg3}'])
         >>> arguments.pop(1)
@@ -1381,7 +1384,9 @@ class TexArgs(list):
         BraceGroup('arg0')
         """
         item = super().pop(i)
-        j = self.all.index(item)
+        for j, other in enumerate(self.all):
+            if other is item:
+                break
         return self.all.pop(j)
 
     def reverse(self):
